@@ -53,6 +53,11 @@ func sessionStaleState(c *Check, rule string) {
 		if _, reach := rcpt.F.Reach(Query{From: rcpt.Entry(), Inclusive: true, Target: func(q Pt) bool { return q == pt }, Avoid: isStart, AvoidEdge: noDelivery}); !reach {
 			continue
 		}
+		// … and from which Rcpt can answer without starting it (a read that is always followed by the start is the
+		// started delivery's business)
+		if _, answers := rcpt.F.Reach(Query{From: []Pt{pt}, Inclusive: true, Target: rcpt.F.IsExitPt, Avoid: isStart, AvoidEdge: noDelivery}); !answers {
+			continue
+		}
 		written := map[*ast.SelectorExpr]bool{}
 		inspectNoLit(n, func(x ast.Node) bool {
 			switch s := x.(type) {
